@@ -147,8 +147,15 @@ def analyse(case, lab, port, entry, out, classes, exact):
 def run_port(case):
     lab = Lab(clause="C09.no_exception")
     port, entry, out = build(case, lab)
-    lab.inject(entry, case["wl"])
+    pkts = lab.inject(entry, case["wl"])
     classes = set()
+    # a packet may have been at this very hop before (a tail-dropped object that its sender retransmits, a route that crosses the
+    # port twice) or at a port with the same element id: it then arrives with an old stamp under this id
+    for pkt, old in zip(pkts, case.get("stale_stamps", [])):
+        if old is not None:
+            pkt.perhop_time[case["eid"]] = old
+            pkt.perhop_time["elsewhere"] = old
+            classes.add("packet arrives with an earlier stamp of this hop")
 
     def occupancy():
         want = sum(r.snap[3] for r, d in entry.recs if not d) - sum(r.snap[3] for r in out.recs)
@@ -199,6 +206,7 @@ def port_strategy(tier):
         return st.fixed_dictionaries({
             "exact": st.just(exact), "rate": rate, "wl": wl,
             "eid": st.sampled_from(["p0", "sw.3", "x"]),
+            "stale_stamps": st.lists(st.sampled_from([None, None, None, 0, 0.5, 1000]), max_size=12),
         }).flatmap(lambda d: lim.map(lambda l: dict(d, limit_bytes=l[0], qlimit=l[1])))
     return kgen.weighted([(build(True), 4), (build(False), 1)])
 
@@ -467,7 +475,7 @@ PROP = Property(
     facets=[
         Facet("port", port_strategy, run_port, quick=1500, thorough=8000, exhaustive=port_lattice,
               essential=["accepted", "refused", "byte decision within 1 of the limit", "packet decision within 1 of the limit",
-                         "rate 0", "no limit", "queued behind another packet"]),
+                         "rate 0", "no limit", "queued behind another packet", "packet arrives with an earlier stamp of this hop"]),
         Facet("monitor", monitor_strategy, run_monitor, quick=1500, thorough=6000,
               essential=["sample while transmitting", "sample with a queue", "coincident sample judged set-valued"]),
         Facet("red", red_strategy, run_red, quick=600, thorough=4000,
